@@ -1,14 +1,14 @@
 /-!
 # `ocppj.DefaultClientDispatcher`: Stop, Start and the senders — small-step model of the session protocol
 
-After /repo 82b951e (`repaired := true`): `Stop` drops the wake-up channel from the struct (`field := none`: `IsRunning`
+After /repo 82b951e and be75cb6 (`repaired := true`): `Stop` drops the wake-up channel from the struct (`field := none`: `IsRunning`
 is false at once) and closes the stop channel of the session; the message pump of a session works on the channels it was
 started with and leaves when its stop channel is closed, resetting the queue on its way out; `Start` waits until the pump
-of the previous session has gone. A sender checks `IsRunning`, pushes, then posts its wake-up on whatever channel the
-field holds at that moment (non-blocking; a nil channel is skipped).
+of the previous session has gone. A sender checks `IsRunning` (ocppj.Client), then - one step under the dispatcher's read lock - checks again,
+pushes and posts its wake-up on the channel the field holds (a stopped dispatcher refuses the request).
 
 `repaired := false` is the code before: `Stop` *closed* the wake-up channel and left it in the field; the pump reacted
-later by resetting the queue and the field; `Start` did not wait. Kept to state the two defects as theorems.
+later by resetting the queue and the field; `Start` did not wait; `SendRequest` pushed whatever the state. Kept to state the two defects as theorems.
 
 Sessions are numbered; a wake-up channel is identified with the session it was made for.
 -/
@@ -25,6 +25,7 @@ structure St where
   senders  : Nat := 0               -- senders past the IsRunning check, before their wake-up
   panicked : Bool := false          -- a send on a closed channel
   wiped    : Bool := false          -- a leaving pump reset the queue / the field of a session that is running
+  latePush : Bool := false          -- a request was pushed into the queue while the dispatcher was stopped (it survives into the next session)
 deriving Repr, DecidableEq
 
 inductive Label where
@@ -53,10 +54,12 @@ def step (s : St) : Label → Option St
       else some { s with closedCh := k :: s.closedCh }
   | .sendCheck => if s.field.isSome then some { s with senders := s.senders + 1 } else none
   | .sendWake =>
+    -- `DefaultClientDispatcher.SendRequest`: since be75cb6 running check, push and wake-up are one step under the read lock,
+    -- and a stopped dispatcher refuses; before, the push happened whatever the state
     if s.senders > 0 then
       match s.field with
       | some c => some { s with senders := s.senders - 1, panicked := s.panicked || s.closedCh.contains c }
-      | none => some { s with senders := s.senders - 1 }
+      | none => some { s with senders := s.senders - 1, latePush := s.latePush || !s.repaired }
     else none
   | .pumpLoop k =>
     -- old code only: `reqChan()` returns the current field; a pump that was busy meanwhile now listens on the new channel
